@@ -122,7 +122,16 @@ impl StateMachine<'_> {
                     .output_buffer
                     .push_str(&tabs::expand(&self.raw_line, &self.config.tab_cfg));
                 self.painter.output_buffer.push('\n');
-                State::HunkZero(Unified, None)
+                // Stay in the current kind of diff: in a combined diff the lines after
+                // "\ No newline at end of file" still carry one prefix column per parent.
+                let diff_type = match &self.state {
+                    HunkHeader(diff_type, _, _, _)
+                    | HunkMinus(diff_type, _)
+                    | HunkZero(diff_type, _)
+                    | HunkPlus(diff_type, _) => diff_type.clone(),
+                    _ => Unified,
+                };
+                State::HunkZero(diff_type, None)
             }
         };
         self.painter.emit()?;
